@@ -113,7 +113,9 @@ def answer (line : String) : String :=
   | ["scan", tol, thr, fp0, ms, lo, hi, ns0, p2lo, p2hi, sstep, tab] =>
       let c := cfgOf tol thr fp0 ms lo hi
       let t2 := parseTab2 tab
-      let n := scanCountFloat (pF p2lo) (pF p2hi) (pF sstep)
+      match scanCountFloatE (pF p2lo) (pF p2hi) (pF sstep) with
+      | .error e => s!"err {e}"
+      | .ok n =>
       let p2s := linspace (pF p2lo) (pF p2hi) n
       let nrAt := fun (p2 : Float) =>
         nr c (objOf ((t2.filter (fun e => sameBits e.1 p2 || near e.1 p2)).map (fun e => e.2))) (pF ns0)
